@@ -246,6 +246,8 @@ func (e *Explorer) runPath(in *Interp, it workItem) {
 					outcome, msg = r.kind, r.msg
 				case *targetPanic:
 					outcome, msg = "panic", r.msg
+				case goroutinePanic:
+					outcome, msg = "panic", "in a goroutine (crashes the process): "+r.tp.msg
 				default:
 					outcome = "engine-crash"
 					msg = fmt.Sprintf("%v\n%s", r, debug.Stack())
@@ -253,6 +255,7 @@ func (e *Explorer) runPath(in *Interp, it workItem) {
 			}
 		}()
 		in.curFrame = nil
+		defer in.endGoroutines()
 		in.callSSA(nil, h.Fn, nil, nil)
 	}()
 	if outcome == "panic" {
